@@ -758,7 +758,10 @@ class KTr:
             outs = (["st"] if mem else []) + asg
             if not outs:
                 return []
-            cnd = self.icond(s.test)
+            try:
+                cnd = self.icond(s.test)
+            except TranslationError:
+                cnd = f"({self.bcond(s.test)} = true)"      # a condition on floats: numba's comparison (false on NaN)
             k0 = dict(self.kinds)
             a = self.block(s.body, outs, ind + 2, live_after)
             ka = dict(self.kinds)
@@ -1076,6 +1079,32 @@ def generate_hornerkern(fns, gen_dir, write_if_changed):
     out.append(txt)
     out.append("end\nend Gen\n")
     write_if_changed(os.path.join(gen_dir, "HornerKern.lean"), "\n".join(out))
+    return {k.name: [(p, k.kinds[p]) for p in k.params]}
+
+
+def generate_eulerkern(fns, gen_dir, write_if_changed):
+    """`quaternionic.converters.ToEulerPhases` — the dependency's kernel that spherical/wigner.py instantiates
+    (`to_euler_phases = quaternionic.converters.ToEulerPhases(jit)`); read from the INSTALLED package the library imports."""
+    import importlib.util
+    spec = importlib.util.find_spec("quaternionic")
+    if spec is None or not spec.submodule_search_locations:
+        raise TranslationError("quaternionic is not importable")
+    path = os.path.join(list(spec.submodule_search_locations)[0], "converters.py")
+    tree = ast.parse(open(path, encoding="utf-8").read())
+    outer = find_function(tree, "ToEulerPhases")
+    inner = [n for n in outer.body if isinstance(n, ast.FunctionDef) and n.name == "_to_euler_phases"]
+    if len(inner) != 1:
+        raise TranslationError("quaternionic.converters.ToEulerPhases: inner kernel not found")
+    # spherical must still use exactly this kernel
+    wsrc = open(os.path.join(REPO, "spherical/wigner.py"), encoding="utf-8").read()
+    if "to_euler_phases = quaternionic.converters.ToEulerPhases(jit)" not in wsrc:
+        raise TranslationError("spherical/wigner.py no longer instantiates quaternionic.converters.ToEulerPhases")
+    out = [FILL_HEADER.format(src="quaternionic/converters.py (ToEulerPhases._to_euler_phases, the installed dependency)").replace(
+        "The kernels that turn the H wedge into results", "The Euler-phase kernel of the dependency `quaternionic`")]
+    k, txt = KTr(fns, {}, set(), inner[0], complex_arrays={"z"}).translate()
+    out.append(txt)
+    out.append("end\nend Gen\n")
+    write_if_changed(os.path.join(gen_dir, "EulerKern.lean"), "\n".join(out))
     return {k.name: [(p, k.kinds[p]) for p in k.params]}
 
 
